@@ -42,7 +42,7 @@ CHECKS.update({
 })
 ENGINE_NOTES = {
     "pager": SEQ_NOTE,
-    "restart": "Trusted base: the never-closed baseline run is itself real code (differential oracle), the model is used only to resolve symbolic webentity references and to decide which rules the caller re-supplies; SimFile stub (8% of runs use real files instead). Restart positions are enumerated completely per history; histories are sampled.",
+    "restart": "Trusted base: the never-closed baseline run is itself real code (differential oracle), the model is used only to resolve symbolic webentity references and to decide which rules the caller re-supplies; SimFile stub (20% of runs use real files instead). Restart positions are enumerated completely per history; histories are sampled.",
     "twin": "Trusted base: differential oracle between two real back-ends; the model only resolves symbolic references and derives the questions asked. The mmap clause needs real files and is evaluated in about 20% of the runs.",
     "sched": "Trusted base: independent raw-store parser for snapshots, reference model for the sequential result, the sequential twin is real code. should_yield is replaced so that every loop iteration yields (a superset of the shipped yield points). Schedules are sampled by seed; not exhaustive.",
     "crash": "Trusted base: the disk model is the one the property states (ordered, write-through, atomic in-place block rewrites); log-prefix reconstruction is cross-checked against real in-line crashes. All cuts of each sampled history are enumerated; histories are sampled.",
